@@ -62,8 +62,11 @@ def generate(rng, tier) -> dict:
         spec.update(T.DISP_BAND)
         spec["foff"] = -10.0 * 16 / max(16, nchans) if spec.get("big") else T.DISP_BAND["foff"]
     N = sum(counts)
-    if rng.random() < 0.45:
+    r = rng.random()
+    if r < 0.35:
         start, nsamps = 0, None
+    elif r < 0.55:
+        start, nsamps = rng.randint(0, N - 1), None  # "from start to the end": nsamps left at its default
     else:
         start = rng.randint(0, N - 1)
         nsamps = rng.randint(1, N - start)
@@ -83,7 +86,7 @@ def generate(rng, tier) -> dict:
             ops[1].update({"start": st2, "nsamps": ns})
         else:
             st2 = rng.randint(0, N - 1)
-            ops[1].update({"start": st2, "nsamps": rng.randint(1, N - st2)})
+            ops[1].update({"start": st2, "nsamps": rng.choice([None, rng.randint(1, N - st2)])})
     pre = gen_pre(rng, N) if rng.random() < 0.3 else []
     faults = []
     if rng.random() < 0.25:
@@ -133,7 +136,8 @@ def fixup(sc):
         o["gulp"] = max(1, o["gulp"])
         if "start" in o:
             o["start"] = max(0, min(o["start"], N - 1))
-            o["nsamps"] = max(1, min(o["nsamps"], N - o["start"]))
+            if o["nsamps"] is not None:
+                o["nsamps"] = max(1, min(o["nsamps"], N - o["start"]))
     for o in sc.get("pre", []):
         o["start"] = max(0, min(o["start"], N - 1))
         o["nsamps"] = max(1, min(o["nsamps"], N - o["start"]))
@@ -242,6 +246,8 @@ def execute(sc, ctx) -> None:
                 ctx.probe("sub-range-before-EOF")
             if start > 0:
                 ctx.probe("start>0")
+                if nsamps is None:
+                    ctx.probe("start>0-with-default-nsamps")
             try:
                 want, md = definition(name, X, params, delays, nchans)
             except Rejected:
